@@ -751,7 +751,10 @@ func init() {
 // This option does not change the shape of parrots (i.e. same ciphers will be offered either way).
 // Must be called before establishing any connections.
 func EnableWeakCiphers() {
-	utlsSupportedCipherSuites = append(cipherSuites, []*cipherSuite{
+	// extend the current list (which already holds the legacy ChaCha20 code points)
+	// instead of rebuilding it from cipherSuites; ids already present are skipped,
+	// so calling this more than once changes nothing
+	for _, cs := range []*cipherSuite{
 		{DISABLED_TLS_RSA_WITH_AES_256_CBC_SHA256, 32, 32, 16, rsaKA,
 			suiteTLS12, cipherAES, macSHA256, nil},
 
@@ -759,7 +762,11 @@ func EnableWeakCiphers() {
 			suiteECDHE | suiteECSign | suiteTLS12 | suiteSHA384, cipherAES, utlsMacSHA384, nil},
 		{DISABLED_TLS_ECDHE_RSA_WITH_AES_256_CBC_SHA384, 32, 48, 16, ecdheRSAKA,
 			suiteECDHE | suiteTLS12 | suiteSHA384, cipherAES, utlsMacSHA384, nil},
-	}...)
+	} {
+		if cipherSuiteByID(cs.id) == nil {
+			utlsSupportedCipherSuites = append(utlsSupportedCipherSuites, cs)
+		}
+	}
 }
 
 func mapSlice[T any, U any](slice []T, transform func(T) U) []U {
